@@ -11,6 +11,15 @@ pub struct LennardJones12x6 {
 }
 
 impl EnergyFunction for LennardJones12x6 {
+    #[cfg(optrs_verif)]
+    fn verif_describe(&self) -> crate::verif::TermDesc {
+        crate::verif::TermDesc {
+            kind: "lj",
+            idxs: vec![self.i, self.j],
+            params: vec![self.sigma, self.d],
+        }
+    }
+
     fn involves_idxs(&self, idxs: Vec<usize>) -> bool {
         i_j_are_in(self.i, self.j, idxs)
     }
@@ -68,6 +77,15 @@ pub struct RepulsiveInverseDistance {
 }
 
 impl EnergyFunction for RepulsiveInverseDistance {
+    #[cfg(optrs_verif)]
+    fn verif_describe(&self) -> crate::verif::TermDesc {
+        crate::verif::TermDesc {
+            kind: "repulsion",
+            idxs: vec![self.i, self.j],
+            params: vec![self.c, self.exponent.value as f64],
+        }
+    }
+
     fn involves_idxs(&self, idxs: Vec<usize>) -> bool {
         i_j_are_in(self.i, self.j, idxs)
     }
